@@ -32,6 +32,9 @@ type Config struct {
 	WWrap, WPwrap, WPop, WWrite int
 	// weights of reads/writes/iteration
 	WGet, WHas, WSet, WDel, WIter, WOpen, WNext, WDrain, WDump, WNil, WPend int
+	// weight of a set/delete issued on the store *below* a cache wrap that has not been touched
+	// since its creation or its last Write (such a wrap holds nothing, so it must show the change)
+	WBelow int
 	// every EpochSets sets the whole stack is dropped and a fresh MemDB is used.  MemDB iterators
 	// hold a read lock until their feeder goroutine has pushed every item into a 64-slot channel;
 	// keeping the root below 64 keys guarantees that a write issued while an iterator is open
@@ -44,6 +47,8 @@ type layer struct {
 	store stypes.KVStore
 	cache *cachekv.Store
 	pfx   []byte
+	fresh bool     // cache wrap untouched since NewStore / Write
+	dirty [][]byte // keys set/deleted through this wrap since NewStore / Write
 }
 
 type openIter struct {
@@ -66,7 +71,7 @@ type H struct {
 	pfxPool [][]byte
 	// statistics
 	resets, maxDepth, openDuringWrite, opsWithOpen, nonEmptyIters, panics int
-	depthHist                                                            [8]int
+	depthHist                                                             [8]int
 }
 
 var alphabet = []byte{0x00, 0x01, 0x02, 0xfe, 0xff}
@@ -287,6 +292,7 @@ func (h *H) pick() string {
 		{"get", c.WGet}, {"has", c.WHas}, {"set", c.WSet}, {"del", c.WDel}, {"iter", c.WIter}, {"riter", c.WIter},
 		{"iopen", c.WOpen}, {"inext", c.WNext}, {"idrain", c.WDrain}, {"rootdump", c.WDump}, {"nil", c.WNil},
 		{"wrap", c.WWrap}, {"pwrap", c.WPwrap}, {"pop", c.WPop}, {"write", c.WWrite}, {"pend", c.WPend},
+		{"below", c.WBelow},
 	}
 	tot := 0
 	for _, o := range ops {
@@ -358,6 +364,14 @@ func (h *H) one() {
 	op := h.pick()
 	top := h.top()
 	switch op {
+	case "get", "has", "set", "del", "iter", "riter", "iopen", "nil", "write":
+		// a call on the top store reaches every wrap below it (cache misses read through, Write
+		// sets into the parent): none of them is untouched afterwards
+		for i := range h.layers {
+			h.layers[i].fresh = false
+		}
+	}
+	switch op {
 	case "get":
 		k := h.topKey()
 		res := h.guard(func() string { v, _ := top.Get(k); return gen.Hex(v) })
@@ -370,10 +384,16 @@ func (h *H) one() {
 		k, v := h.topKey(), h.value()
 		h.sets++
 		res := h.guard(func() string { _ = top.Set(k, v); return "ok" })
+		if depth > 0 {
+			h.layers[depth-1].dirty = append(h.layers[depth-1].dirty, k)
+		}
 		t.Line("set", depth > 0 && res == "ok", "set %s %s => %s", gen.Hex(k), gen.Hex(v), res)
 	case "del":
 		k := h.topKey()
 		res := h.guard(func() string { _ = top.Delete(k); return "ok" })
+		if depth > 0 {
+			h.layers[depth-1].dirty = append(h.layers[depth-1].dirty, k)
+		}
 		t.Line("del", depth > 0 && res == "ok", "del %s => %s", gen.Hex(k), res)
 	case "iter", "riter":
 		s, e := h.bound(), h.bound()
@@ -464,7 +484,7 @@ func (h *H) one() {
 			return
 		}
 		c := cachekv.NewStore(top)
-		h.layers = append(h.layers, layer{kind: "cache", store: c, cache: c})
+		h.layers = append(h.layers, layer{kind: "cache", store: c, cache: c, fresh: true})
 		t.Line("wrap", true, "wrap => ok")
 	case "pwrap":
 		if depth >= h.cfg.MaxDepth {
@@ -493,7 +513,18 @@ func (h *H) one() {
 		}
 		c := h.layers[depth-1].cache
 		res := h.guard(func() string { c.Write(); return "ok" })
+		h.layers[depth-1].fresh = true
 		t.Line("write", true, "write => %s", res)
+		// the written wrap must hold nothing any more: change a just-written key underneath it
+		// and read it back through the wrap
+		if d := h.layers[depth-1].dirty; h.cfg.WBelow > 0 && len(d) > 0 && h.r.Chance(1, 2) {
+			k := cp(d[h.r.Intn(len(d))])
+			h.below(k)
+			res := h.guard(func() string { v, _ := top.Get(k); return gen.Hex(v) })
+			h.layers[depth-1].fresh = false
+			t.Line("get", res != "~" && res != "PANIC", "get %s => %s", gen.Hex(k), res)
+		}
+		h.layers[depth-1].dirty = nil
 	case "pend":
 		p := cp(prefixes[h.r.Intn(len(prefixes))])
 		if h.r.Chance(1, 3) {
@@ -509,6 +540,35 @@ func (h *H) one() {
 		ks = append(ks, gen.Hex(h.rawKey()))
 		res := h.guard(func() string { return gen.Hex(stypes.PrefixEndBytes(p)) })
 		t.Line("pend", len(p) > 0, "pend %s %s => %s", gen.Hex(p), strings.Join(ks, ","), res)
+	case "below":
+		if depth == 0 || h.layers[depth-1].kind != "cache" || !h.layers[depth-1].fresh {
+			return
+		}
+		h.below(h.topKey())
+	}
+}
+
+// below: set/delete k on the store under the (untouched) top cache wrap.
+func (h *H) below(k []byte) {
+	t := h.t
+	depth := len(h.layers)
+	for i := 0; i < depth-1; i++ {
+		h.layers[i].fresh = false
+	}
+	{
+		var below stypes.KVStore = h.root
+		if depth > 1 {
+			below = h.layers[depth-2].store
+		}
+		if h.r.Chance(2, 3) {
+			v := h.value()
+			h.sets++
+			res := h.guard(func() string { _ = below.Set(k, v); return "ok" })
+			t.Line("below", res == "ok", "bset %s %s => %s", gen.Hex(k), gen.Hex(v), res)
+		} else {
+			res := h.guard(func() string { _ = below.Delete(k); return "ok" })
+			t.Line("below", res == "ok", "bdel %s => %s", gen.Hex(k), res)
+		}
 	}
 }
 
